@@ -118,6 +118,25 @@ def run(chk):
     work.mkdir(parents=True)
     lists = make_pool(rng, work)
     pool = make_calls(rng.fork("pool"), lists, 70 if quick else 400)
+    # back-translation of REAL forward output (it contains the tables' indicator cells: capitals, emphasis, computer braille,
+    # numbers) with position arrays and a cursor: map entries of cells that produce no text must not be left over from
+    # earlier calls
+    for tl in [l for l in lists if "/work-" in l and os.path.basename(l).startswith("e")] + ["en-us-g2.ctb", "en-ueb-g2.ctb", "de-g2.ctb"]:
+        r = rng.fork(("realback", tl))
+        fw = []
+        for _ in range(3 if quick else 12):
+            if "/work-" in tl:
+                inp = [r.choice([97, 98, 99, 65, 66, 67, 32, 32, 46, 49]) for _ in range(r.range(3, 14))]
+            else:
+                inp = safety.capitalise(r, [c for c in safety.gen_sentence(r, 24) if c] or [97])
+            fw.append(trans.case_line("T", 0, inp, 6 * len(inp) + 8, presence=1, typeform=safety.gen_typeform(r, len(inp))))
+        for res in trans.run_cases(exe, tl, fw, exact=1, env=env, timeout=300):
+            if res.crash or res.ret != 1 or res.outlen <= 0:
+                continue
+            cells = res.out[:res.outlen]
+            pres = r.choice([12, 12, 28, 31, 4, 8])
+            pool.append("Y %s ;; %s" % (tl, trans.case_line("B", 0, cells, r.choice([4 * len(cells) + 8, len(cells), r.range(1, len(cells))]),
+                                                             cursor=r.range(0, len(cells) - 1) if pres & 16 else -2, presence=pres)))
     # targeted pairs for the known mechanisms
     a, b = str(work / "A.utb"), str(work / "B.utb")
     targeted = ["Y %s ;; %s" % (a, trans.case_line("B", 4, [0x8001], 5)),
